@@ -4,7 +4,7 @@
    exception exactly where the model says [Bad] is what the fault-injecting correspondence check
    (props/c08.py) observes at every byte offset. *)
 From Coq Require Import ZArith List Bool.
-From Covfie Require Import Stack BinIO BinIOProofs BinIOFlip FloatOps Properties_C06.
+From Covfie Require Import Stack BinIO BinIOProofs BinIOFlip BinIOForeign FloatOps Properties_C06.
 Import ListNotations.
 Local Open Scope Z_scope.
 
@@ -32,6 +32,21 @@ Theorem C08_load_never_stuck : forall s bs, (exists x, load flocq_ops s bs = Goo
 Proof. exact (fun s bs => match load flocq_ops s bs as r return (exists x, r = Good x) \/ (exists e, r = Bad e) with
                           | Good x => or_introl (ex_intro _ x eq_refl) | Bad e => or_intror (ex_intro _ e eq_refl) end). Qed.
 
+(* a stream written by an INCOMPATIBLE layer stack: when the two stacks, read from the outside and ignoring the
+   layers without on-disk footprint, first differ in the KIND of a tagged layer or of the primitive (everything
+   before being the same layer over backends of the same kind), every dump of the one is rejected by the reader
+   of the other, whatever the contents and whatever follows.  (Stacks that differ only in a dimension or scalar
+   type of the same layer kind are data dependent: the model decides and the implementation must agree.) *)
+Theorem C08_foreign_stack_rejected : forall s s' f bs tl, foreign (fst s) (snd s) (fst s') (snd s') ->
+  wf_fld s f = true -> dump s f = Some bs -> exists e, load flocq_ops s' (bs ++ tl) = Bad e.
+Proof. exact (foreign_rejected flocq_ops). Qed.
+Example C08_foreign_examples :
+  foreign [LStrided 2 U64] (PArray 1 F32) [LMorton 2 U64 false] (PArray 1 F32) /\
+  foreign [LLinear F32; LClamp; LStrided 2 U64] (PArray 1 F32) [LNearest F32; LClamp; LHilbert U64] (PArray 1 F32) /\
+  foreign [LClamp; LStrided 2 U64] (PArray 1 F32) [LStrided 2 U64] (PArray 1 F32).
+Proof. exact (conj foreign_strided_morton (conj foreign_under_interpolators foreign_missing_layer)). Qed.
+
 Print Assumptions C08_prefix_rejected.
+Print Assumptions C08_foreign_stack_rejected.
 Print Assumptions C08_reader_prefix_safe.
 Print Assumptions C08_flip_rejected.
